@@ -34,6 +34,11 @@ type c12Case struct {
 	CancelAt time.Duration
 	RunFor   time.Duration
 	Racers   string // "deliver" | "remove" | "none"
+	// Many: 60 mailboxes with one expired message each, no pause between mailboxes, and shutdown
+	// requested at the scanner's first removal.  Without a pause the scan's check for shutdown and
+	// its zero-length wait are both ready each time and either may win, so how far an unchanged
+	// scan still gets is geometrically distributed; the check allows 30 mailboxes (2^-30).
+	Many bool
 }
 
 func (k *c12Case) Describe() []string {
@@ -89,6 +94,15 @@ func genC12(w *simrt.Choices, tier string, avoid map[string]bool) Case {
 	for i, n := 0, w.Choose(16); i < n; i++ {
 		k.Prefill = append(k.Prefill, c12Msg{Box: k.Names[w.Choose(nb)], Age: c12Offsets[w.Choose(len(c12Offsets))]})
 	}
+	if k.Period > 0 && w.Choose(25) == 0 {
+		k.Many, k.Mode, k.Racers, k.Sleep, k.Live = true, "scan", "none", 0, nil
+		k.Names, k.Prefill = nil, nil
+		for i := 0; i < 60; i++ {
+			n := fmt.Sprintf("many%02d", i)
+			k.Names = append(k.Names, n)
+			k.Prefill = append(k.Prefill, c12Msg{Box: n, Age: -time.Hour})
+		}
+	}
 	k.RunFor = []time.Duration{30 * time.Second, 61 * time.Second, 3 * time.Minute, 11 * time.Minute}[w.Choose(4)]
 	k.CancelAt = time.Duration(w.Choose(int(k.RunFor/time.Millisecond)+1)) * time.Millisecond
 	if k.Racers != "none" && k.Racers != "remove-now" {
@@ -114,6 +128,7 @@ type scanStore struct {
 	seq      *int64
 	scans    []scanWin
 	removals []scanRemoval
+	onFirstRemoval func()
 }
 
 type scanWin struct {
@@ -138,6 +153,11 @@ func (s *scanStore) VisitMailboxes(f func([]storage.Message) bool) error {
 }
 
 func (s *scanStore) RemoveMessage(mailbox, id string) error {
+	if s.onFirstRemoval != nil {
+		f := s.onFirstRemoval
+		s.onFirstRemoval = nil
+		f()
+	}
 	err := s.Store.RemoveMessage(mailbox, id)
 	*s.seq++
 	s.removals = append(s.removals, scanRemoval{box: mailbox, id: id, at: time.Now(), err: err, seq: *s.seq})
@@ -230,6 +250,15 @@ func runC12(c *Ctx, cs Case) {
 	var cancelSeq int64
 	switch k.Mode {
 	case "scan":
+		if k.Many {
+			ss.onFirstRemoval = func() {
+				cancelAt = time.Now()
+				seq++
+				cancelSeq = seq
+				cancel()
+				c.Stat("fault.cancel_at_first_removal_of_a_scan_without_pauses", 1)
+			}
+		}
 		scanDone := false
 		c.Go("scan", func() {
 			if err := rs.DoScan(ctx); err != nil {
@@ -237,7 +266,7 @@ func runC12(c *Ctx, cs Case) {
 			}
 			scanDone = true
 		})
-		if k.CancelAt < k.RunFor/2 {
+		if k.CancelAt < k.RunFor/2 && !k.Many {
 			simrt.Sleep(k.CancelAt)
 			cancelAt = time.Now()
 			seq++
@@ -325,6 +354,18 @@ func runC12(c *Ctx, cs Case) {
 		if len(after) > 2 {
 			c.Failf("scan-goes-on-after-cancel", "after shutdown was requested the scanner still removed mail in %d different mailboxes %v (pause between mailboxes: %v)", len(after), sortedKeys(after), k.Sleep)
 		}
+	}
+	if cancelSeq > 0 && k.Many {
+		after := map[string]bool{}
+		for _, rm := range ss.removals {
+			if rm.seq > cancelSeq {
+				after[rm.box] = true
+			}
+		}
+		if len(after) > 30 {
+			c.Failf("scan-without-pauses-ignores-cancel", "shutdown was requested at the scanner's first removal; it went on to remove mail in %d of the other 59 mailboxes", len(after))
+		}
+		c.Stat("probe.mailboxes_scanned_after_cancel_without_pauses", int64(len(after)))
 	}
 	if k.Period <= 0 && len(ss.scans) > 0 {
 		c.Failf("period0-scans", "retention period 0 but %d scans ran", len(ss.scans))
